@@ -11,6 +11,23 @@ use std::cell::RefCell;
 /// value of a state function: next state index, or fail
 const FAIL: usize = usize::MAX;
 
+/// 'static state names: lets the rule function hand back a *borrowed* string
+/// that differs from its argument (a rule may return a static replacement or a
+/// sub-slice of its input; the signature allows it)
+const STATIC_ASCII: [&str; 10] = ["s0", "s1", "s2", "s3", "s4", "s5", "s6", "s7", "s8", "s9"];
+const STATIC_MB: [&str; 10] = [
+    "\u{E9}",
+    "\u{E9}\u{1F600}",
+    "\u{E9}\u{1F600}\u{1F600}",
+    "\u{E9}\u{1F600}\u{1F600}\u{1F600}",
+    "\u{E9}\u{1F600}\u{1F600}\u{1F600}\u{1F600}",
+    "\u{E9}\u{1F600}\u{1F600}\u{1F600}\u{1F600}\u{1F600}",
+    "\u{E9}\u{1F600}\u{1F600}\u{1F600}\u{1F600}\u{1F600}\u{1F600}",
+    "\u{E9}\u{1F600}\u{1F600}\u{1F600}\u{1F600}\u{1F600}\u{1F600}\u{1F600}",
+    "\u{E9}\u{1F600}\u{1F600}\u{1F600}\u{1F600}\u{1F600}\u{1F600}\u{1F600}\u{1F600}",
+    "\u{E9}\u{1F600}\u{1F600}\u{1F600}\u{1F600}\u{1F600}\u{1F600}\u{1F600}\u{1F600}\u{1F600}",
+];
+
 fn state_name(i: usize, multibyte: bool) -> String {
     if multibyte {
         // multi-byte state strings of different lengths
@@ -34,6 +51,14 @@ fn lib_error(i: usize) -> Error {
 /// run the real stabilize on the function table `f` from state `start`
 /// `borrow_unchanged`: return Cow::Borrowed when f(x)=x (what real rules do) or an owned copy
 fn run_one(f: &[usize], start: usize, multibyte: bool, borrow_unchanged: bool, rec: &mut Rec) {
+    run_mode(f, start, multibyte, borrow_unchanged as u8, rec)
+}
+
+/// mode 0: every result owned; 1: borrowed (of the argument) only when unchanged;
+/// 2: every result a borrowed 'static string, changed or not; 3: borrowed sub-slice of the
+/// argument whenever the next state's name is a prefix of the current one, else owned
+fn run_mode(f: &[usize], start: usize, multibyte: bool, mode: u8, rec: &mut Rec) {
+    let borrow_unchanged = mode == 1;
     let names: Vec<String> = (0..f.len()).map(|i| state_name(i, multibyte)).collect();
     let idx = |s: &str| names.iter().position(|n| n == s);
     let log: RefCell<Vec<(String, Result<String, usize>)>> = RefCell::new(Vec::new());
@@ -48,7 +73,12 @@ fn run_one(f: &[usize], start: usize, multibyte: bool, borrow_unchanged: bool, r
         match r {
             Err(i) => Err(lib_error(i)),
             Ok(n) => {
-                if n == s && borrow_unchanged {
+                if mode == 2 && f.len() <= 10 {
+                    let t = if multibyte { &STATIC_MB } else { &STATIC_ASCII };
+                    Ok(Cow::Borrowed(t[f[i.unwrap()]]))
+                } else if mode == 3 && s.starts_with(n.as_str()) {
+                    Ok(Cow::Borrowed(&s[..n.len()]))
+                } else if n == s && borrow_unchanged {
                     Ok(Cow::Borrowed(s))
                 } else {
                     Ok(Cow::Owned(n))
@@ -70,11 +100,11 @@ fn run_one(f: &[usize], start: usize, multibyte: bool, borrow_unchanged: bool, r
     let log = log.into_inner();
     let case = || {
         format!(
-            "f={};start={};mb={};borrow={}",
+            "f={};start={};mb={};mode={}",
             f.iter().map(|x| if *x == FAIL { "F".to_string() } else { x.to_string() }).collect::<Vec<_>>().join(","),
             start,
             multibyte as u8,
-            borrow_unchanged as u8
+            mode
         )
     };
     let class = match &want {
@@ -84,7 +114,7 @@ fn run_one(f: &[usize], start: usize, multibyte: bool, borrow_unchanged: bool, r
         Out::Panic(_) => unreachable!(),
     };
     if n_apps >= 2 {
-        rec.nontrivial(&class, &(f.to_vec(), start, multibyte, borrow_unchanged), case);
+        rec.nontrivial(&class, &(f.to_vec(), start, multibyte, mode), case);
     } else {
         rec.count(&class);
     }
@@ -149,7 +179,7 @@ fn nth_function(n: usize, mut k: usize) -> Vec<usize> {
 
 pub fn run(env: &Env) -> Rec {
     let mut rec = Rec::new();
-    let max_n = if env.quick() { 5 } else { 6 };
+    let max_n = if env.quick() { 5 } else { 7 };
     for n in 1..=max_n as usize {
         let total = (n as usize + 1).pow(n as u32);
         let per = 2000usize;
@@ -157,8 +187,16 @@ pub fn run(env: &Env) -> Rec {
             for k in c * per..((c + 1) * per).min(total) {
                 let f = nth_function(n, k);
                 for start in 0..n {
-                    // alternate the representation details deterministically so both are covered
-                    run_one(&f, start, (k + start) % 2 == 0, (k / 2 + start) % 2 == 0, rec);
+                    // rotate the representation details deterministically so that all are covered:
+                    // single/multi-byte state strings x {owned, borrowed-if-unchanged, borrowed 'static,
+                    // borrowed sub-slice of the argument}
+                    run_mode(&f, start, (k + start) % 2 == 0, ((k / 2 + start) % 4) as u8, rec);
+                    if n <= 4 {
+                        for mode in 0..4u8 {
+                            run_mode(&f, start, mode % 2 == 1, mode, rec);
+                            run_mode(&f, start, mode % 2 == 0, mode, rec);
+                        }
+                    }
                 }
             }
         });
@@ -206,14 +244,18 @@ pub fn replay(_env: &Env, _op: &str, case: &str) -> Rec {
     });
     let start = super::kv_get(case, "start").and_then(|s| s.parse().ok());
     match (f, start) {
-        (Some(f), Some(start)) if start < f.len() && f.iter().all(|x| *x == FAIL || *x < f.len()) => run_one(
+        (Some(f), Some(start)) if start < f.len() && f.iter().all(|x| *x == FAIL || *x < f.len()) => run_mode_replay(
             &f,
             start,
+            super::kv_get(case, "mode").or(super::kv_get(case, "borrow")).and_then(|m| m.parse().ok()).unwrap_or(1),
             super::kv_get(case, "mb") == Some("1"),
-            super::kv_get(case, "borrow") == Some("1"),
             &mut rec,
         ),
         _ => rec.note("HARNESS-ERROR: cannot parse replay case"),
     }
     rec
+}
+
+fn run_mode_replay(f: &[usize], start: usize, mode: u8, multibyte: bool, rec: &mut Rec) {
+    run_mode(f, start, multibyte, mode, rec)
 }
